@@ -279,6 +279,8 @@ class Sym:
     def __init__(self, a, requires_grad=False):
         if not (isinstance(a, np.ndarray) and a.dtype == object):
             a = arr(a)
+        if not torch.is_grad_enabled() and a.size and any(getattr(e, "d", None) for e in a.reshape(-1)):
+            a = _ew(lambda s: s.nodual(), a)  # results computed under torch.no_grad() carry no derivative
         self.a = a
         self.requires_grad = requires_grad
 
@@ -326,7 +328,8 @@ class Sym:
     @data.setter
     def data(self, value):
         explore.log_write(("data=", id(_root(self.a))))
-        self.a = arr(value).copy() if not isinstance(value, Sym) else value.a
+        va = arr(value).copy() if not isinstance(value, Sym) else value.a
+        self.a = _ew(lambda s: s.nodual(), va)  # assignment through .data is invisible to autograd
 
     @property
     def T(self):
